@@ -141,7 +141,16 @@ def setSid : List (Bytes × Nat) → Bytes → Nat → List (Bytes × Nat)
   | [], s, v => [(s, v)]
   | (k, x) :: r, s, v => if k = s then (k, v) :: r else (k, x) :: setSid r s v
 
-def decimal (n : Nat) : Bytes := (toString n).toUTF8.toList.map (·.toNat)
+def removeSid : List (Bytes × Nat) → Bytes → List (Bytes × Nat)
+  | [], _ => []
+  | (k, x) :: r, s => if k = s then r else (k, x) :: removeSid r s
+
+/-- `strconv.FormatUint(n, 10)` -/
+def decimalFuel : Nat → Nat → Bytes
+  | 0, n => [48 + n % 10]
+  | f + 1, n => if n < 10 then [48 + n] else decimalFuel f (n / 10) ++ [48 + n % 10]
+
+def decimal (n : Nat) : Bytes := decimalFuel n n
 
 /-! ### credit control for one reported usage (one iteration of the loop in sessionChargingReservation) -/
 
@@ -349,7 +358,8 @@ def release (s : State) (sid : Bytes) (r : Req) : State × Resp :=
       | (accts', groups', _) =>
         let cur : Record := ue.records.getD idx default
         let cur2 : Record := { appendUsage cur r.usages with cause := 0 }
-        let ue' : Ue := { ue with groups := groups', records := setRecord ue.records idx cur2 }
+        let ue' : Ue := { ue with groups := groups', records := setRecord ue.records idx cur2,
+                                  cdr := removeSid ue.cdr sid }
         ({ s with accts := accts', ues := putUe s.ues ue' }, { status := 204 })
 
 /-- split a byte string on '_' -/
